@@ -31,9 +31,12 @@ func ConvertMetadataToProtoHeader(
 	for key, value := range src {
 		if strings.HasSuffix(key, "-bin") {
 			// binary headers must be base64-encoded
+			// (into a new slice: src must not be modified)
+			encoded := make([]string, len(value))
 			for i := range value {
-				value[i] = connect.EncodeBinaryHeader([]byte(value[i]))
+				encoded[i] = connect.EncodeBinaryHeader([]byte(value[i]))
 			}
+			value = encoded
 		}
 		hdr := &conformancev1.Header{
 			Name:  key,
